@@ -55,6 +55,18 @@ needs.update({
  "C07-h2": ("__computing guard in the psd getter without try/finally", "an attribute value that makes the lazy computation fail, a read that raises, the attribute repaired, another read"),
  "C07-h3": ("pburg builds its Criteria object once in the constructor with the data length of that moment", "pburg with criteria != None, data re-assigned with a different length, read, and data for which the stale N moves the selected order"),
 })
+
+needs.update({
+ "C06-i1": ("centerdc_2_twosided assigns into a pre-allocated float buffer, silently dropping imaginary parts", "a stored PSD with complex dtype and non-zero imaginary parts (MultiTapering on complex data with method='adapt', or a hand-set complex-valued psd) converted away from centerdc"),
+ "C06-i2": ("twosided_2_centerdc takes data[-(N//2):] (the -0 slice)", "NFFT == 1 exactly"),
+ "C06-i3": ("NFFT setter resets sides outside the 'NFFT really changed' block", "a conversion to non-default sides, then an NFFT request that resolves to the current NFFT under another spelling (None / 'nextpow2'), then any read or conversion"),
+ "C07-i1": ("pburg.__call__ wraps arburg in try/except ValueError and reuses the previous AR model", "pburg, a successful computation, then an assignment that makes arburg raise ValueError (ar_order = 0, constant data, or a transient kernel failure), then a psd read"),
+ "C07-i2": ("psd getter sets the stored PSD to None when the computation fails; the sides setter then sees 'no psd' and clears the flag without converting", "compute, invalidate, a psd read that fails transiently, then sides = s, then read (the assigned sides is lost)"),
+ "C07-i3": ("the refresh inside the sides setter inlined as try: self() finally: modified = False", "compute, invalidate without reading, a sides assignment whose refresh fails, then read psd"),
+ "C07-j1": ("sides setter relies on get_converted_psd to refresh, which reads self.sides before the refresh", "compute; non-default sides; invalidating assignment that does not reset sides; sides = anything; read"),
+ "C07-j2": ("data setter writes same-shape data into the array it already owns (dtype and datatype stay those of the first data)", "a data assignment of the same length but another kind (complex to real, real to complex, int list to float array)"),
+ "C07-j3": ("pmusic/pev write the automatically selected NSIG back to self.NSIG and reuse it forever", "pmusic or pev built without NSIG/threshold, one computation, then data for which the criterion would pick another number (or a lower ar_order)"),
+})
 res = json.load(open('/verif/seeded/RESULTS.json'))
 for sid, (mech, need) in needs.items():
     d = '/verif/seeded/' + sid
